@@ -23,7 +23,7 @@ def both(hw, fmt, old, new, files=None):
     dev = E.device(hw)
     from annet import patching
     from annet.annlib.diff import gen_pre_as_diff
-    out = {"fcmds": [], "dcmds": [], "fdiff": [], "ddiff": [], "ferr": False, "derr": False, "wlines": [], "dlines": [], "fview": [], "dview": []}
+    out = {"fcmds": [], "dcmds": [], "fdiff": [], "ddiff": [], "ferr": False, "derr": False, "wlines": [], "dlines": [], "fview": [], "dview": [], "wview": [], "dview2": []}
     dpatch = None
     try:
         ddiff, dpatch = api._diff_and_patch(dev, E.cp(old), E.cp(new), None, None, False)
@@ -56,6 +56,12 @@ def both(hw, fmt, old, new, files=None):
             text = res[0][1] if res else ""
             out["wlines"] = [ln.split() for ln in text.split("\n") if ln.strip()]
             out["dlines"] = [ln.split() for ln in api._format_patch_blocks(dpatch2, hw, "  ").split("\n") if ln.strip()]
+            # ... and `annet file-diff` (file_diff_worker) prints the device-mode diff of what the files hold
+            dargs = types.SimpleNamespace(hw=hw, show_rules=False, indent="  ", no_color=True)
+            dres = list(api.file_diff_worker(files, dargs))
+            dtext = dres[0][1] if dres else ""
+            out["wview"] = [ln.split() for ln in dtext.split("\n") if ln.strip()]
+            out["dview2"] = [ln.split() for ln in "".join(gen_pre_as_diff(patching.make_pre(_d2), False, "  ", True)).split("\n") if ln.strip()]
         except Exception as e:
             out["ferr"], out["fexc"] = True, "file_patch_worker: " + repr(e)
     return out
@@ -104,7 +110,7 @@ def run(ctx):
         try:
             rec.update(both(hw, fmt, old, new, files if (disk or (disk is None and len(recs) % 3 == 0)) else None))
         except Exception as e:
-            rec.update({"fcmds": [], "dcmds": [], "fdiff": [], "ddiff": [], "ferr": True, "derr": True, "wlines": [], "dlines": [], "fview": [], "dview": [],
+            rec.update({"fcmds": [], "dcmds": [], "fdiff": [], "ddiff": [], "ferr": True, "derr": True, "wlines": [], "dlines": [], "fview": [], "dview": [], "wview": [], "dview2": [],
                         "exc": repr(e)})
         recs.append(rec)
         ctx.count()
@@ -159,7 +165,7 @@ def run(ctx):
                        (["switchport trunk allowed vlan 2-4", "description x"], ["switchport trunk allowed vlan all", "description y"])):
             add("raises", hw.vendor, hw, od([("hostname a", od()), (iface, od((r, od()) for r in lo))]),
                 od([("hostname b", od()), (iface, od((r, od()) for r in ln))]))
-    slim = [{k: r[k] for k in ("id", "fcmds", "dcmds", "fdiff", "ddiff", "ferr", "derr", "wlines", "dlines", "fview", "dview")} for r in recs]
+    slim = [{k: r[k] for k in ("id", "fcmds", "dcmds", "fdiff", "ddiff", "ferr", "derr", "wlines", "dlines", "fview", "dview", "wview", "dview2")} for r in recs]
     verd = ctx.judge("trace/Trace_FrontEnds.tla", "trace/Trace.cfg", slim, shards=16)
     for r in recs:
         v = verd[r["id"]]
